@@ -146,10 +146,15 @@ pub fn run(r: &Report) {
                 if all || k == 1 {
                     reject("%u %Y-%m-%d", format!("{} {}", if w == 0 { 7 } else { w }, base), "wrong-weekday");
                 }
-                if all {
+                // every way of fixing the date (month/day, ordinal day) is paired
+                // with every weekday specifier: quick with one wrong weekday per
+                // date, thorough with all six
+                if all || k == 1 {
                     reject("%a %Y-%m-%d", format!("{} {}", WD_ABBR[w], base), "wrong-weekday");
                     reject("%w %Y-%m-%d", format!("{} {}", w, base), "wrong-weekday");
                     reject("%Y-%j %a", format!("{:04}-{:03} {}", s.y, s.doy, WD_ABBR[w]), "wrong-weekday");
+                    reject("%A %Y-%j", format!("{} {:04}-{:03}", WD_FULL[w], s.y, s.doy), "wrong-weekday");
+                    reject("%Y-%j %u", format!("{:04}-{:03} {}", s.y, s.doy, if w == 0 { 7 } else { w }), "wrong-weekday");
                 }
             }
             // a day of year that names another day of the same year
@@ -157,8 +162,8 @@ pub fn run(r: &Report) {
             reject("%Y-%m-%d %j", format!("{} {:03}", base, other), "%j");
         });
         r.add_states(n);
-        r.add_transitions(n * if all { 31 } else { 8 });
-        r.add_validated(n * if all { 31 } else { 8 });
+        r.add_transitions(n * if all { 43 } else { 13 });
+        r.add_validated(n * if all { 43 } else { 13 });
         r.count("contradictions_dates.days", n);
         r.outcome("contradictions_dates.rejected", rejected_wd.load(Relaxed));
         r.outcome("contradictions_dates.wrong_%j_accepted", accepted_j.load(Relaxed));
